@@ -311,7 +311,8 @@ func isIdent(s string) bool {
 func init() {
 	shapes = []shape{
 		{
-			// an item without operator characters (5, NOT f, a IS NULL) is classified as a column name and looked up in the row
+			// an operator-less item that starts with an upper-case NOT (NOT f) reaches the evaluators verbatim, which only
+			// know the lower-case spelling (numbers, x IS NULL and not f are classified as expressions since 40c32a1 and work)
 			name: "operatorless-item",
 			detect: func(c *Case, ctx string) bool {
 				if !isExpr(c) || ctx != "select" || c.Expr.Op == "col" || c.Expr.Op == "str" {
@@ -319,7 +320,7 @@ func init() {
 				}
 				t := itemText(ctx, c)
 				up := strings.ToUpper(t)
-				return !strings.ContainsAny(t, "+-*/<>=!&|(") && !strings.Contains(up, "AND") && !strings.Contains(up, "OR") && !strings.HasPrefix(up, "CASE")
+				return strings.HasPrefix(t, "NOT ") && !strings.ContainsAny(t, "+-*/<>=!&|(") && !strings.Contains(up, "AND") && !strings.Contains(up, "OR")
 			},
 		},
 		{
